@@ -160,10 +160,9 @@ def build_pkgo(sc, sid):
             r, _, sp = r.partition("@")
             sp = sp or "direct"
             spells.add(sp)
-            PT = {"direct": q + "PT", "alias": "TA", "alias3": "q.TA", "ptralias": "TP", "rename": "dd.PT", "paren": "(" + q + "PT)"}[sp]
-            PPT = "TP" if sp == "ptralias" else "*" + PT
-            if sp == "ptralias" and r in ("typeVar", "typeField", "typeParam"):
-                PT = "TP"
+            PT = {"direct": q + "PT", "alias": "TA", "alias3": "q.TA", "chain": "TA2", "chain3": "q.TA2", "ptralias": "TP", "ptralias3": "q.TP",
+                  "ptrchain": "TH", "ptrchain3": "q.TH", "rename": "dd.PT", "paren": "(" + q + "PT)"}[sp]
+            PPT = PT if sp.startswith("ptr") else "*" + PT
             if r == "typeField":
                 out.add("type H%d struct {" % n)
                 out.tagged(key, "f%d %s" % (n, PT))
@@ -209,9 +208,12 @@ def build_pkgo(sc, sid):
     h.auto_imports = pkg != "d"
     h.add("// the using package imports d directly (annotations are visible through direct imports only)", "var _ %sQ" % q, "",
           "var gs %sS" % q, "", "// Emb embeds d.S: the methods of S are promoted to it.", "type Emb struct{ %sS }" % q, "")
-    if spells & {"alias", "ptralias"}:
-        # the alias declaration is itself a reference to d.PT from the using package (first use in its file)
-        h.tagged("aliasdecl", "type TA = %sPT" % q if "alias" in spells else "type TP = *%sPT" % q, "")
+    # an alias declaration is itself a reference to d.PT from the declaring package (chains: every link is)
+    ALIAS_DECLS = [("TA", "type TA = %sPT", {"alias", "chain", "alias3", "chain3"}), ("TA2", "type TA2 = TA", {"chain", "chain3"}),
+                   ("TP", "type TP = *%sPT", {"ptralias", "ptrchain", "ptralias3", "ptrchain3"}), ("TH", "type TH = TP", {"ptrchain", "ptrchain3"})]
+    for name, decl, when in ALIAS_DECLS:
+        if spells & {w for w in when if not w.endswith("3")}:
+            h.tagged("aliasdecl_" + name, decl % q if "%s" in decl else decl, "")
     files.append(h)
     gofiles = []
     for out in files:
@@ -221,12 +223,18 @@ def build_pkgo(sc, sid):
             tags[k] = (out.name, ln, t)
     pkgs = [{"path": "m/d", "name": "d", "files": [{"name": "d/d.go", "src": pkgo_d(sc["lines"])}]}]
     extra_expect = set()
-    if "aliasdecl" in tags and disallowed:
-        extra_expect.add((tags["aliasdecl"][0], tags["aliasdecl"][1], "PKGO01"))
-    if "alias3" in spells:
-        pkgs.append({"path": "m/q", "name": "q", "files": [{"name": "q/q.go", "src": 'package q\n\nimport "m/d"\n\ntype TA = d.PT\n'}]})
-        if sc["al"] != "none":
-            extra_expect.add(("q/q.go", 5, "PKGO01"))  # q itself is never on the allow-lists of the spell mode
+    # PKGO01 is reported once per file and type: of the alias declarations of one file only the first is reported
+    decl_tags = sorted((tags[k][1], tags[k][0]) for k in tags if isinstance(k, str) and k.startswith("aliasdecl_"))
+    if decl_tags and disallowed:
+        extra_expect.add((decl_tags[0][1], decl_tags[0][0], "PKGO01"))
+    if any(sp.endswith("3") for sp in spells):
+        ql = ["package q", "", 'import "m/d"', ""]
+        for name, decl, when in ALIAS_DECLS:
+            if spells & {w for w in when if w.endswith("3")}:
+                ql += [decl % "d." if "%s" in decl else decl, ""]
+                if sc["al"] != "none" and not any(e[0] == "q/q.go" for e in extra_expect):
+                    extra_expect.add(("q/q.go", len(ql) - 1, "PKGO01"))  # q itself is never on the allow-lists of the spell mode
+        pkgs.append({"path": "m/q", "name": "q", "files": [{"name": "q/q.go", "src": "\n".join(ql)}]})
     if pkg == "d":
         pkgs[0]["files"] += gofiles
     else:
